@@ -20,10 +20,18 @@ def run(ctx):
         "gcc ASan+UBSan build with assertions enabled (flavour asan); the matching liblzma decoder is the oracle "
         "(independence from liblzma's decoder is C02's job)",
         "hook H1 (lzma_verif_mf_offset_bias) is semantically neutral: positions are only used as differences",
-        "input sizes are bounded (quick <= 512 KiB, thorough <= 8 MiB); the real 4 GiB normalisation point is "
-        "reached only through the hook",
+        "input sizes are bounded (quick <= 512 KiB, thorough <= 8 MiB) except for the thorough tier's long haul: 20 "
+        "streams of 4 GiB + 1..96 MiB (every match finder x fast/normal, .xz/.lzma/raw delta+LZMA2) piped encoder -> "
+        "decoder -> comparison with the regenerated input, where the 32-bit position counters wrap without the hook; "
+        "in the quick tier the normalisation point is reached only through the hook",
     ]
     ctx.run_shards(exe, ["--prop", "C01"], cases)
+    if ctx.tier == "thorough":
+        # the real thing: > 4 GiB through one encoder per match finder and mode, without the hook
+        ctx.run_shards(exe, ["--mode", "longhaul"], 20, label="longhaul", timeout=6 * 3600,
+                       env={"VERIF_CASE_WATCHDOG": "20000"})
+        ctx.require("longhaul_real_normalizations", ctx.counters.get("longhaul_real_normalizations", 0), 20)
+        ctx.require("longhaul_input_bytes", ctx.counters.get("longhaul_input_bytes", 0), 20 * (1 << 32))
     c = ctx.counters
     ctx.require("normalizations", c.get("normalizations", 0), 200 if ctx.tier == "quick" else 2000)
     for ep in ("easy", "stream", "stream_mt", "alone", "raw", "microlzma", "block", "easy_buffer",
